@@ -42,12 +42,40 @@ Require Import Ctpg.Proofs.ContainersBits.
 Require Import Ctpg.Proofs.ContainersVec.
 Require Import Ctpg.Proofs.ContainersSort.
 Require Import Ctpg.Proofs.UtilsCorrect.
+Require Import Ctpg.Model.Dfa.
+Require Import Ctpg.Model.Containers.
+Require Import Ctpg.Proofs.LRGenWordsRefine.
+Require Import Ctpg.Proofs.CharsetWordsRefine.
 
 (* char_subset is a cbitset<256>: for EVERY sequence of operations (set, ranges as repeated set, whole-set flip for '.' and inverted sets) test(j) is membership in the described set of bytes *)
 Theorem C03_character_sets_are_sets_of_bytes :
   forall (n : N) (ops : list cb_op) (j : N), (j < n)%N -> cb_mem (cb_run n ops) j = fold_left (sb_step n) ops (fun _ : N => false) j.
 Proof. exact @cb_run_refines. Qed.
 Print Assumptions C03_character_sets_are_sets_of_bytes.
+
+(* LINK (character sets): char_subset::flip() on the four 64-bit words is the model's cs_flip ('.' and inverted sets), for every set *)
+Theorem C03_inverted_sets_on_words_are_the_models :
+  forall (b : cbitset) (s : charset), cs_rel b s -> cs_rel (w_cs_flip b) (cs_flip s).
+Proof. exact @w_cs_flip_rel. Qed.
+Print Assumptions C03_inverted_sets_on_words_are_the_models.
+
+(* add_range (the loop of set(i) for i = c1..c2) on words is the model's cs_add_range, also for an empty range c1 > c2 *)
+Theorem C03_ranges_on_words_are_the_models :
+  forall (b : cbitset) (s : charset) (c1 c2 : nat), cs_rel b s -> c2 < 256 -> exists b' : cbitset, w_cs_add_range b c1 c2 = Ok b' /\ cs_rel b' (cs_add_range s c1 c2).
+Proof. exact @w_cs_add_range_rel. Qed.
+Print Assumptions C03_ranges_on_words_are_the_models.
+
+(* test(c) on words is the model's membership *)
+Theorem C03_set_membership_on_words_is_the_models :
+  forall (b : cbitset) (s : charset) (c : nat), cs_rel b s -> c < 256 -> cb_test b (N.of_nat c) = Ok (nth c s false).
+Proof. exact @w_cs_test_rel. Qed.
+Print Assumptions C03_set_membership_on_words_is_the_models.
+
+(* [^a-c] computed on words: 0xC8 and 0xFF are members, index 256 throws *)
+Theorem C03_inverted_set_example_on_words :
+  match ex_neg_abc with | Ok b => map (fun c : nat => cb_test b (N.of_nat c)) [96; 97; 98; 99; 100; 200; 255; 256] | _ => [] end = [Ok true; Ok false; Ok false; Ok false; Ok true; Ok true; Ok true; Throw].
+Proof. exact @ex_neg_abc_tests. Qed.
+Print Assumptions C03_inverted_set_example_on_words.
 
 (* 256 is a multiple of 64: no padding bits exist, flip() and set() are exact *)
 Theorem C03_whole_set_flip_is_exact_for_256_bits :
